@@ -434,8 +434,8 @@ MUTANTS = [
            "pyast.Constant(value=float(val), kind=None, **attrs)", 'C06.F2'),
     Mutant('negzero-dropped', BYTE, "        if isinstance(val, Float):", "        if False:", 'C06.F2'),
     Mutant('neg-zero-fold-removed', PARSER, "                if isinstance(arg, RationalVal) and arg.as_rational() == 0:", "                if False:", 'C06.F2'),
-    Mutant('hex-empty-int', FRACTIONS, "        i = '0' if parts[0] == '' else parts[0]\n        f = parts[1]\n    else:\n        i = mant\n        f = None\n\n    return _sci_to_fraction(sign, i, f, exp, 16, 2)",
-           "        i = parts[0]\n        f = parts[1]\n    else:\n        i = mant\n        f = None\n\n    return _sci_to_fraction(sign, i, f, exp, 16, 2)", 'C06.S1'),
+    Mutant('hex-empty-int', FRACTIONS, "        i = '0' if parts[0] == '' else parts[0]\n        f = parts[1] if parts[1] != '' else None    # `0x1.p3`\n",
+           "        i = parts[0]\n        f = parts[1] if parts[1] != '' else None    # `0x1.p3`\n", 'C06.S1'),
     Mutant('hex-exponent-base-16', FRACTIONS, 'return _sci_to_fraction(sign, i, f, exp, 16, 2)', 'return _sci_to_fraction(sign, i, f, exp, 16, 16)', 'C06.S1'),
     Mutant('fraction-digits-miscounted', FRACTIONS, 'efrac = -len(f)', 'efrac = -len(f) + 1', 'C06.S1'),
     Mutant('dec-exponent-group', FRACTIONS, "    mant = m.group(2)\n    exp = m.group(5)\n\n    if '.' in mant:\n        parts = mant.split('.')\n        assert len(parts) == 2\n        i = '0' if parts[0] == '' else parts[0]\n        f = parts[1]\n    else:\n        i = mant\n        f = None\n\n    return _sci_to_fraction(sign, i, f, exp, 10, 10)",
